@@ -512,3 +512,55 @@ func verif_global_facts() bool {
 }
 
 func verif_unroll_Ether_AppendPayload_1() int { return 48 }
+
+// ---------- session state the handlers rely on ----------
+
+// VerifSpecSessionOK: session well-formedness as the handlers need it: NIC
+// information present with 6-byte MACs, no nil entry in the MAC table.
+func VerifSpecSessionOK(h *Session) bool {
+	return spec_session_wf(h) && h.Conn != nil && len(h.NICInfo.HostAddr4.MAC) == 6 && len(h.NICInfo.RouterAddr4.MAC) == 6 &&
+		spec_mactable_nonnil(h)
+}
+
+func spec_mactable_nonnil(h *Session) bool {
+	return vForall(0, len(h.MACTable.Table), func(i int) bool { return h.MACTable.Table[i] != nil })
+}
+
+func verif_inv_MACTable_findMAC_1(rangeindex int) bool { return -1 <= rangeindex }
+
+//verif:props C08 C13
+func verif_contract_Session_DHCPv4IPOffer(h *Session, mac net.HardwareAddr) netip.Addr {
+	vRequires(h != nil && spec_mactable_nonnil(h))
+	r := h.DHCPv4IPOffer(mac)
+	return r
+}
+
+// ---------- what Parse hands to the protocol handlers ----------
+
+// VerifSpecFrame: properties of a Frame returned by Parse with a nil error
+// (proved by verif_lemma_parse_establishes_frame; assumed by the handler lemmas,
+// which take the frame as a parameter so that they do not re-prove Parse).
+func VerifSpecFrame(f Frame) bool {
+	return len(f.ether) >= 14 && spec_frame_wf(f, f.ether) &&
+		len(f.SrcAddr.MAC) == 6 && vSameRegion(f.SrcAddr.MAC, f.ether) && vOffset(f.SrcAddr.MAC, f.ether) == 6 &&
+		len(f.DstAddr.MAC) == 6 && vSameRegion(f.DstAddr.MAC, f.ether) && vOffset(f.DstAddr.MAC, f.ether) == 0
+}
+
+// VerifSpecFrameARP: additionally, for PayloadARP: a 28-byte ARP body with hardware length 6 follows the 14-byte header.
+func VerifSpecFrameARP(f Frame) bool {
+	return VerifSpecFrame(f) && f.PayloadID == PayloadARP && f.offsetPayload == 14 && len(f.ether) >= 42 && f.ether[18] == 6
+}
+
+//verif:props C08 C13
+func verif_lemma_parse_establishes_frame(h *Session, p []byte) {
+	vRequires(spec_session_wf(h))
+	f, err := h.Parse(p)
+	if err != nil {
+		return
+	}
+	vCanary()
+	vAssert(VerifSpecFrame(f))
+	if f.PayloadID == PayloadARP {
+		vAssert(VerifSpecFrameARP(f))
+	}
+}
